@@ -86,6 +86,7 @@ def own_nodes(func):
     """Nodes belonging to the frame of ``func`` (not nested defs/lambdas/classes;
     generator-expression bodies are included - callers that care use frames)."""
     stack = list(func.body) if hasattr(func, "body") and isinstance(func.body, list) else [func.body]
+    stack = [n for n in stack if not isinstance(n, FuncTypes + (ast.Lambda, ast.ClassDef))]
     while stack:
         n = stack.pop()
         yield n
